@@ -1,11 +1,109 @@
-import VrpModel.ArcBased
 import VrpModel.SeqBased
 import VrpProofs.Props.C18
+import VrpProofs.Props.C02
+import VrpProofs.Lemmas.SeqWalksProto
+import VrpProofs.Lemmas.SeqBridge
 
+/-!
+# C07 — Sequence-based constraints describe per-vehicle walks with absorbing depot
+-/
 namespace Vrp.C07
-open Vrp
+open Vrp Finset
 
-/-- placeholder until the property theorems are merged -/
-theorem placeholder_true : True := trivial
+/-- per-vehicle walks: `w v p` is the node vehicle `v` occupies at position `p` -/
+structure Walk (I : SeqInst) (w : ℕ → ℕ → ℕ) : Prop where
+  lt : ∀ v < I.V, ∀ p < I.L, w v p < I.g.nodes.length
+  start : ∀ v < I.V, w v 0 = 0
+  stop : ∀ v < I.V, w v (I.L - 1) = 0
+  /-- consecutive positions are joined by existing arcs (staying at the depot uses the self-arc (0,0)) -/
+  arcs : ∀ v < I.V, ∀ p, p + 1 < I.L → I.g.hasArc (w v p) (w v (p + 1)) = true
+  /-- once back at the depot (position ≥ 1) the vehicle stays there -/
+  absorb : ∀ v < I.V, ∀ p, 1 ≤ p → p + 1 < I.L → w v p = 0 → w v (p + 1) = 0
+  /-- every customer is visited exactly once overall -/
+  once : ∀ k, 1 ≤ k → k < I.g.nodes.length →
+    ((range I.L ×ˢ range I.V).filter (fun pv => w pv.2 pv.1 = k)).card = 1
+
+/-- the 0/1 vector of a walk assignment: variable `k = (v,p,n)` is 1 iff vehicle `v` is at node `n` at position `p` -/
+def indicator (I : SeqInst) (w : ℕ → ℕ → ℕ) : Vec := fun k =>
+  match I.varTuple k with
+  | some (v, p, n) => if w v p = n then 1 else 0
+  | none => 0
+
+/-! ## bridge to the tuple-level prototype (`Vrp.P7`, `VrpProofs/Lemmas/SeqBridge.lean`) -/
+
+theorem walk_toP7 (I : SeqInst) (w : ℕ → ℕ → ℕ) : (toP7 I).Walk w ↔ Walk I w :=
+  ⟨fun h => ⟨h.lt, h.start, h.stop, h.arcs, h.absorb, h.once⟩,
+   fun h => ⟨h.lt, h.start, h.stop, h.arcs, h.absorb, h.once⟩⟩
+
+/-- the tuple-indexed view is the indicator of `w` ⇒ the flat vector is the indicator vector -/
+theorem indicator_of_isInd (I : SeqInst) (x : Vec) (w : ℕ → ℕ → ℕ)
+    (hind : (toP7 I).IsInd (yOf I x) w) : ∀ k < I.vars.length, x k = indicator I w k := by
+  intro k hk
+  unfold indicator
+  cases ht : I.varTuple k with
+  | none =>
+    unfold SeqInst.varTuple at ht
+    rw [List.getElem?_eq_getElem hk] at ht
+    exact absurd ht (by simp)
+  | some u =>
+    obtain ⟨v, p, n⟩ := u
+    have hidx := (C18.seq_index_tuple_inverse I (v, p, n) k).2 ht
+    have hmem := (C18.seq_vars_mem_iff I (v, p, n)).1 (seq_varIndex_some hidx).2
+    simp only
+    rw [← yOf_some (x := x) hidx]
+    exact hind v hmem.1 p hmem.2.1 n hmem.2.2.1
+
+/-- the flat vector is the indicator vector of a walk ⇒ the tuple-indexed view is its indicator -/
+theorem isInd_of_indicator (I : SeqInst) (hL : 3 ≤ I.L) (x : Vec) (w : ℕ → ℕ → ℕ) (hw : Walk I w)
+    (hx : ∀ k < I.vars.length, x k = indicator I w k) : (toP7 I).IsInd (yOf I x) w := by
+  have hag := ((toP7 I).walk_imp_feasible hL (fun v p n => if w v p = n then 1 else 0) w
+    ((walk_toP7 I w).2 hw) (fun _ _ _ _ _ _ => rfl)).1
+  intro v hv p hp n hn
+  cases hk : I.varIndex (v, p, n) with
+  | some k =>
+    rw [yOf_some hk, hx k (seq_varIndex_some hk).1]
+    unfold indicator
+    rw [(C18.seq_index_tuple_inverse I (v, p, n) k).1 hk]
+  | none =>
+    rw [yOf_none hk]
+    cases hf : I.fixed p n with
+    | none => exact absurd ⟨hv, hp, hn, hf⟩ ((C18.seq_index_none_iff I (v, p, n)).1 hk)
+    | some f =>
+      have := hag v hv p hp n hn f (by rw [toP7_fixed]; exact hf)
+      simp only at this
+      rw [this]
+      rfl
+
+/-! ## statements to prove (replace every `sorry`) -/
+
+/-- **soundness and completeness**: a binary vector satisfies all linear and quadratic constraints the
+    object reports iff it is the indicator of per-vehicle walks with absorbing depot that visit every
+    customer exactly once -/
+theorem seq_feasible_iff_walks (I : SeqInst) (d : MPData) (h : I.data = some d) (hL : 3 ≤ I.L)
+    (hN : 1 ≤ I.g.nodes.length) (x : Vec) (hx : IsBin d.n x) :
+    d.feasibleB x = true ↔ ∃ w, Walk I w ∧ ∀ k < d.n, x k = indicator I w k := by
+  have hn : d.n = I.vars.length := (seq_data_fields h).1
+  rw [seq_feasible_iff_proto h x hx]
+  constructor
+  · rintro ⟨hc, hs, hq⟩
+    obtain ⟨w, hw, hind⟩ := (toP7 I).feasible_imp_walk hL hN (yOf I x) (yOf_agree I x)
+      (yOf_bin I x (hn ▸ hx)) hc hs hq
+    exact ⟨w, (walk_toP7 I w).1 hw, hn ▸ indicator_of_isInd I x w hind⟩
+  · rintro ⟨w, hw, hxw⟩
+    have hind := isInd_of_indicator I hL x w hw (hn ▸ hxw)
+    obtain ⟨_, _, hc, hs, hq⟩ := (toP7 I).walk_imp_feasible hL (yOf I x) w ((walk_toP7 I w).2 hw) hind
+    exact ⟨hc, hs, hq⟩
+
+/-- every assignment of `V` such walks of `L` positions is representable (its indicator is binary and feasible) -/
+theorem seq_walks_representable (I : SeqInst) (d : MPData) (h : I.data = some d) (hL : 3 ≤ I.L)
+    (hN : 1 ≤ I.g.nodes.length) (w : ℕ → ℕ → ℕ) (hw : Walk I w) :
+    IsBin d.n (indicator I w) ∧ d.feasibleB (indicator I w) = true := by
+  have hb : IsBin d.n (indicator I w) := by
+    intro k _
+    unfold indicator
+    split
+    · split_ifs <;> simp
+    · simp
+  exact ⟨hb, (seq_feasible_iff_walks I d h hL hN _ hb).2 ⟨w, hw, fun _ _ => rfl⟩⟩
 
 end Vrp.C07
